@@ -10,7 +10,7 @@ import sys
 import time
 
 from vlib import ber_ref as B
-from vlib import build, driver, rigp, runner, scenario
+from vlib import build, driver, model as M, rigp, runner, scenario
 
 PID = "C17"
 LIMIT = 4080
@@ -209,6 +209,33 @@ def cred_worker(job):
         return agent.reply(req, [])
     for kind, n in job["cases"]:
         name = "".join(rng.choice("abcdefghijklmnopqrstuvwxyz0123456789") for _ in range(n))
+        if kind.startswith("op:"):
+            # every request type through every security level: nesting lengths are judged after decryption too
+            # (a PDU header that is only wrong when something was pushed into the buffer before it shows nowhere else)
+            op = kind[3:]
+            au, pr = rng.choice([(None, None), ("md5", None), ("sha1", "des"), ("md5", "aes"), ("sha1", "aes"), ("md5", "des")])
+            cfg = rigp.Cfg("v3", auth=au, priv=pr, engine_given=True, client=rng.choice(["sync", "async"]))
+            agent = rigp.Agent(handler, users=[cfg.user_keys()]).start()
+            kw = {"allow_bulk": False} if op == "fetch1" and n % 2 else {}
+            drv = driver.Driver(cfg, agent, timeout=2.0, **kw).create()
+            drv.call("open")
+            box["reqs"] = []
+            oid = (1, 3, 6, 1) + tuple(rng.choice([1, 127, 128, 16384, M.gen_arc(rng)]) for _ in range(n))
+            out = drv.call(op, [B.oid_text(oid)]) if op == "get_many" else drv.call(op, B.oid_text(oid))
+            res["requests"] += 1
+            res["sent"] += 1
+            st = {"engine_id": agent.engine_id, "boots": agent.boots if au else 0, "time": agent.time if au else 0, "user": cfg.user.encode(), "auth": bool(au), "priv": bool(pr)}
+            bulk = op == "getbulk1" or (op == "fetch1" and not kw)
+            exp = {"tag": B.PDU_GET if op in ("get", "get_many") else (B.PDU_GETBULK if bulk else B.PDU_GETNEXT), "a": 0, "b": 20 if bulk else 0, "oids": [oid], "report": False}
+            if not box["reqs"]:
+                res["bad"].append({"sig": "ops:not-sent", "msg": "[%s %s] nothing was sent: %s" % (cfg.key(), op, repr(out)[:120]), "cfgkey": cfg.key()})
+            else:
+                for aspect, msg in scenario.judge_request(box["reqs"][0], cfg, exp, st):
+                    if len(res["bad"]) < 40:
+                        res["bad"].append({"sig": "wire:" + aspect, "msg": "[%s, OID of %d arcs] %s" % (op, len(oid), msg), "cfgkey": cfg.key()})
+            agent.stop()
+            drv.close()
+            continue
         if kind == "community":
             cfg = rigp.Cfg(rng.choice(["v1", "v2c"]), community=name, client=rng.choice(["sync", "async"]))
         else:
@@ -352,7 +379,8 @@ def main():
                              "targets": targets_for(a.tier if variant == "rel" else "quick", random.Random(a.seed + ci), sh, nsh if variant == "rel" else 1)})
         outs = runner.run_workers("checks.c17", "worker", jobs, variant=variant, timeout=3000)
         cj = [{"seed": a.seed + i, "cases": [(k, n) for k in ("community", "user") for n in
-                                              ([0, 1, 127, 128, 255, 256, 1000] + list(range(3960 + i, 4110, 8)))]} for i in range(8)]
+                                              ([0, 1, 127, 128, 255, 256, 1000] + list(range(3960 + i, 4110, 8)))] +
+               [("op:" + op, n) for op in ("get", "get_many", "getnext1", "getbulk1", "fetch1") for n in (1 + i, 9 + i, 40 + i, 100 + i, 120 + i // 2)]} for i in range(8)]
         outs2 = runner.run_workers("checks.c17", "cred_worker", cj, variant=variant, timeout=3000)
         s = {"requests": 0, "sent": 0, "refused": 0, "band": 0, "unreachable": 0, "after_failure_ok": 0, "cred_requests": 0}
         for o in outs + outs2:
